@@ -78,6 +78,11 @@ type env struct {
 	// violated: at least one violation in this case (samples, short-circuit).
 	violated int32
 	input    func() interface{}
+	// onStuck is called when every goroutine is parked but the awaited
+	// condition does not hold: the script must let go of whatever it blocks
+	// itself (implementations waiting for the script's release) before a
+	// deadlock verdict is possible.  It returns whether it released anything.
+	onStuck func() bool
 }
 
 // violate records a violation if its oracle belongs to the property under
@@ -113,8 +118,26 @@ func (e *env) await(what string, done func() bool) bool {
 		}
 		runtime.Gosched()
 	}
+	stuck := 0
+	wrapped := func() bool {
+		if done() {
+			return true
+		}
+		if e.onStuck == nil {
+			return false
+		}
+		if parked, _ := rpcbench.AllParked("common.(*Watch).WaitDone"); parked {
+			stuck++
+		} else {
+			stuck = 0
+		}
+		if stuck >= 3 && e.onStuck() {
+			stuck = 0
+		}
+		return false
+	}
 	w := &common.Watch{Progress: &e.log.Progress, Pending: func() int { return 1 }, Interval: 200 * time.Millisecond, K: 5}
-	rep, timeout := w.WaitDone(done, 90*time.Second)
+	rep, timeout := w.WaitDone(wrapped, 90*time.Second)
 	if rep == nil && !timeout {
 		return true
 	}
